@@ -630,10 +630,81 @@ def bounded_reload(k, n):
     return run
 
 
+def h_load_file(eng):
+    """GlobalContextMgr.load_file: a file that could be READ - whatever its text, the empty text included - replaces the context of
+    that name (the old one is stopped and forgotten, the new one runs the text and is registered with source, path and mtime, so
+    that the next reload can compare them); only a file that could not be read changes nothing; a text that fails to run leaves the
+    new context stopped and unregistered, and the error goes to the caller."""
+    it = Interpreter(eng)
+    w = World(eng)
+    U = "C10/GlobalContextMgr.load_file"
+    given = ["none", "empty", "text"][eng.choose(3, "source-argument")]
+    on_disk = ["unreadable", "empty", "text"][eng.choose(3, "file-on-disk")] if given == "none" else None
+    text = {"empty": "", "text": "x = 1\n"}
+    evals, parsed, logged = [], [], []
+    run_fails = bool(eng.choose(2, "text-fails-to-run"))
+
+    def AstEval(i, name, gctx):
+        a = Rec(fields={"name": name}, name="ast_ctx")
+        a._fields["parse"] = lambda i2, src, filename=None: parsed.append((src, filename))
+
+        def ev(i2):
+            def th():
+                evals.append(1)
+                if run_fails:
+                    raise exc("UserException", "script error")
+            return Coro(th, "eval")
+        a._fields["eval"] = ev
+        a._fields["log_exception"] = lambda i2, e: logged.append(e)
+        return a
+
+    def executor(i, fn, *a):
+        def th():
+            if on_disk == "unreadable":
+                return (None, 0)
+            return (text[on_disk], 1234.5)
+        return Coro(th, "executor_job")
+    hass = Rec(fields={"async_add_executor_job": executor}, name="hass")
+    mod = Module(it, GC_PY, stubs={"_LOGGER": logger_stub(), "Function": Rec(fields={"hass": hass, "install_ast_funcs": lambda i, a: None}, name="Function"),
+                                   "AstEval": AstEval, "os": PyModule("os", {"path": PyModule("os.path", {"getmtime": lambda i, p: 1234.5})}),
+                                   "logging": PyModule("logging", {"getLogger": lambda i, n: logger_stub()}), "LOGGER_PATH": "x", "FOLDER": "pyscript"})
+    M = mod.env.vars["GlobalContextMgr"]
+    table = {}
+    had_old = bool(eng.choose(2, "context-of-that-name-exists"))
+    old = Rec(fields={"stopped": 0}, name="old_ctx")
+    old._fields["stop"] = lambda i: old._fields.__setitem__("stopped", old._fields["stopped"] + 1)
+    if had_old:
+        table["file.x"] = old
+    for nm, f in (("get", lambda i, n: table.get(n)), ("set", lambda i, n, g: table.__setitem__(n, g)), ("delete", lambda i, n: table.pop(n, None))):
+        M.attrs[nm] = f
+    new = Rec(fields={"stopped": 0, "source": None, "file_path": None, "mtime": None, "get_name": lambda i: "file.x"}, name="new_ctx")
+    new._fields["stop"] = lambda i: new._fields.__setitem__("stopped", new._fields["stopped"] + 1)
+    args = [new, "/cfg/pyscript/x.py"] + ([] if given == "none" else [text[given]])
+    k, v = run_catching(it, lambda: it.await_(it.call(it.getattr_(M, "load_file"), args, {})))
+    eng.cover(f"ran:{k}")
+    readable = given != "none" or on_disk != "unreadable"
+    src = text[given] if given != "none" else (text[on_disk] if readable else None)
+    if not readable:
+        eng.oblige(f"{U}/post.unreadable-file-changes-nothing", k == "ok" and evals == [] and (table.get("file.x") is old if had_old else "file.x" not in table) and old._fields["stopped"] == 0)
+        return
+    ob = eng.oblige(f"{U}/post.a-file-that-was-read-is-run-once-whatever-its-text", evals == [1] and parsed == [(src, "/cfg/pyscript/x.py")])
+    if ob.status == "refuted":
+        ob.witness = {"signature": "readable-file-not-loaded", "text": repr(src)}
+    eng.oblige(f"{U}/post.old-context-of-the-name-stopped-and-forgotten", (old._fields["stopped"] == 1 and table.get("file.x") is not old) if had_old else True)
+    eng.oblige(f"{U}/post.source-and-path-recorded-for-the-next-comparison", new._fields["source"] == src and new._fields["file_path"] == "/cfg/pyscript/x.py"
+               and (new._fields["mtime"] == 1234.5 if given == "none" else True))
+    if run_fails:
+        eng.oblige(f"{U}/post.failing-text-leaves-the-context-stopped-unregistered-and-reported", k == "exc" and new._fields["stopped"] == 1 and table.get("file.x") is not new and len(logged) == 1)
+    else:
+        eng.oblige(f"{U}/post.registered-under-its-name", k == "ok" and table.get("file.x") is new and new._fields["stopped"] == 0)
+
+
 def harnesses():
     hs = []
     for c in c11.IMPORT_CASES:
         hs.append(Harness(f"module_import[{c[0]},level={c[1]},rel={c[2]}]", c11.h_module_import(c), units=[(GC_PY, "GlobalContext.module_import")]))
+    hs.append(Harness("GlobalContextMgr.load_file", h_load_file, units=[(GC_PY, "GlobalContextMgr.load_file")],
+                      replay=lambda wj: __import__("replay.native", fromlist=["run_native"]).run_native("c10_empty_file", wj)))
     hs.append(Harness("start_global_contexts", h_start_global_contexts, units=[(I_PY, "start_global_contexts")]))
     hs.append(Harness("load_scripts.changed-set", h_changed_set, units=[(I_PY, "load_scripts")], max_paths=20000))
     hs.append(Harness("load_scripts.will_reload", h_will_reload, units=[(I_PY, "load_scripts")], max_paths=20000))
